@@ -52,9 +52,30 @@ theorem nvValueAscLess_order (items : List NV) (hnd : (items.map (·.name)).Nodu
       have : ¬ a.value = c.value := by omega
       rw [if_neg this]; simp only [decide_eq_true_eq]; omega
 
+/-- `ValueNilSorter(ByNameSmart)`: numbers by magnitude ahead of text (`--sort numeric`) -/
+def nvSmartLess (a b : NV) : Bool := (valueNilSorter (pureCmp byNameSmartF) () a b).1
+
+theorem nvSmartLess_order (hs : StrictTotalOn (fun _ => True) byNameSmartF) (items : List NV)
+    (hnd : (items.map (·.name)).Nodup) : OrderOn (· ∈ items) nvSmartLess := by
+  refine ⟨?_, ?_, ?_⟩
+  · intro a b _ _ _ hab
+    show byNameSmartF b.name a.name = false
+    have hab' : byNameSmartF a.name b.name = true := hab
+    cases hba : byNameSmartF b.name a.name with
+    | false => rfl
+    | true =>
+      have := hs.trans a.name b.name a.name trivial trivial trivial hab' hba
+      rw [hs.irrefl a.name trivial] at this
+      cases this
+  · intro a b ha hb hne
+    exact hs.total a.name b.name trivial trivial (name_inj hnd ha hb hne)
+  · intro a b c _ _ _ _ _ _ hab hbc
+    exact hs.trans a.name b.name c.name trivial trivial trivial hab hbc
+
 /-- what `pureSortLess` answers, case by case -/
 theorem pureSortLess_cases (fullName : Bytes) (less : NV → NV → Bool) (h : pureSortLess fullName = some less) :
-    less = nvNameLess ∨ less = revLess nvNameLess ∨ less = nvValueAscLess ∨ less = revLess nvValueAscLess := by
+    less = nvNameLess ∨ less = revLess nvNameLess ∨ less = nvValueAscLess ∨ less = revLess nvValueAscLess ∨
+    less = nvSmartLess ∨ less = revLess nvSmartLess := by
   unfold pureSortLess at h
   split at h
   · cases h
@@ -65,18 +86,24 @@ theorem pureSortLess_cases (fullName : Bytes) (less : NV → NV → Bool) (h : p
       · right; left; simp only [if_true, Option.some.injEq] at h; exact h.symm
     · cases rev
       · right; right; left; simp only [Bool.false_eq_true, if_false, Option.some.injEq] at h; exact h.symm
-      · right; right; right; simp only [if_true, Option.some.injEq] at h; exact h.symm
+      · right; right; right; left; simp only [if_true, Option.some.injEq] at h; exact h.symm
+    · cases rev
+      · right; right; right; right; left; simp only [Bool.false_eq_true, if_false, Option.some.injEq] at h; exact h.symm
+      · right; right; right; right; right; simp only [if_true, Option.some.injEq] at h; exact h.symm
     · cases h
 
-/-- Every sorter a `text` / `value` name (any spelling, any modifier) denotes is a strict total order on rows with
-distinct names: the hypothesis of `sorted_rows_eq`. -/
-theorem pureSortLess_order (fullName : Bytes) (less : NV → NV → Bool) (h : pureSortLess fullName = some less)
+/-- Every sorter a `text` / `value` / `numeric` name (any spelling, any modifier) denotes is a strict total order on rows
+with distinct names: the hypothesis of `sorted_rows_eq`.  `hs` is C13's `numeric_real_strict_total`. -/
+theorem pureSortLess_order (hs : StrictTotalOn (fun _ => True) byNameSmartF) (fullName : Bytes) (less : NV → NV → Bool)
+    (h : pureSortLess fullName = some less)
     (items : List NV) (hnd : (items.map (·.name)).Nodup) : OrderOn (· ∈ items) less := by
-  rcases pureSortLess_cases fullName less h with rfl | rfl | rfl | rfl
+  rcases pureSortLess_cases fullName less h with rfl | rfl | rfl | rfl | rfl | rfl
   · exact nvNameLess_order items hnd
   · exact (nvNameLess_order items hnd).rev
   · exact nvValueAscLess_order items hnd
   · exact (nvValueAscLess_order items hnd).rev
+  · exact nvSmartLess_order hs items hnd
+  · exact (nvSmartLess_order hs items hnd).rev
 
 /-- two association lists with duplicate-free keys and the same key set have the same number of entries (`len(map)`) -/
 theorem length_eq_of_same_keys {α β : Type} (m₁ : List (Bytes × α)) (m₂ : List (Bytes × β)) (h₁ : (akeys m₁).Nodup)
